@@ -37,4 +37,14 @@ WordLiberal(p, t) == \E i \in 1..(Len(t) + 1) : \E j \in (i - 1)..Len(t) :
                        (i = j + 1 \/ (LiberalStart(t, i) /\ LiberalEnd(t, j))) /\ Glob(p, SubSeq(t, i, j))
 WordVerdict(p, t) == IF p = <<>> THEN "unspec"
                      ELSE IF WordStrict(p, t) THEN "must" ELSE IF ~WordLiberal(p, t) THEN "mustnot" ELSE "unspec"
+
+\* contains_display_name: "content.body contains the owner's display name" - the name is text, none of its characters is a
+\* wildcard; it is looked for case-insensitively between the same word boundaries
+LitEq(n, t) == Len(n) = Len(t) /\ \A i \in 1..Len(n) : Fold(n[i]) = Fold(t[i])
+NameStrict(n, t) == \E i \in 1..(Len(t) + 1) : \E j \in (i - 1)..Len(t) :
+                       StrictStart(t, i) /\ StrictEnd(t, j) /\ LitEq(n, SubSeq(t, i, j))
+NameLiberal(n, t) == \E i \in 1..(Len(t) + 1) : \E j \in (i - 1)..Len(t) :
+                       (i = j + 1 \/ (LiberalStart(t, i) /\ LiberalEnd(t, j))) /\ LitEq(n, SubSeq(t, i, j))
+DisplayNameVerdict(n, t) == IF n = <<>> THEN "unspec"
+                            ELSE IF NameStrict(n, t) THEN "must" ELSE IF ~NameLiberal(n, t) THEN "mustnot" ELSE "unspec"
 =============================================================================
